@@ -385,7 +385,7 @@ Quoted(bs, i, ro, q) ==
   ELSE r
 
 \* what may directly follow a lone dot
-DotFollower(b) == IsTokEnd(b) \/ b = DQ
+DotFollower(b) == IsTokEnd(b) /\ b # PIPE
 
 \* elements of a list / vector up to the closing delimiter `close`; kind is "list" or "vec"
 Elems(bs, i, ro, close, kind, acc) ==
@@ -419,6 +419,7 @@ ReadDatum(bs, i, ro) ==
   IF b = LP THEN Elems(bs, j + 1, ro, RP, "list", <<>>)
   ELSE IF b = LB THEN Elems(bs, j + 1, ro, RB, IF ro.br = "list" THEN "list" ELSE "vec", <<>>)
   ELSE IF b = RP \/ b = RB THEN [t |-> "close", nx |-> j + 1]
+  ELSE IF b = PIPE THEN Unspec                                                 \* |symbol| notation: not part of the crate's grammar
   ELSE IF b = DQ THEN (IF ro.str = "r6rs" THEN R6rsString(bs, j + 1, <<>>) ELSE ElispString(bs, j + 1, <<>>, NoFlags))
   ELSE IF b = SQ THEN Quoted(bs, j + 1, ro, "quote")
   ELSE IF b = BQ THEN Quoted(bs, j + 1, ro, "quasiquote")
